@@ -428,6 +428,9 @@ func (sel *Selection) endEdit(r NodeRequest, bubble bool) error {
 }
 
 func (sel *Selection) Delete() (err error) {
+	if sel.parent == nil {
+		return fmt.Errorf("%w. cannot delete the root of %s", fc.BadRequestError, sel.Path.Meta.Ident())
+	}
 
 	// allow children to recieve indication their parent is being deleted by
 	// sending node request w/delete=true
